@@ -1,5 +1,14 @@
-"""C11 — variable observers see each committed change once, with the final value."""
-import json, re
+"""C11 — variable observers see each committed change once, with the final value.
+
+Strengthened (seeded change C11b): every history is also played with its continues SLICED
+(inkdrive CONT_SLICED / CONT_ASYNC+FINISH under the virtual clock hook): one outermost continue spread
+over several time-limited calls is ONE continue for the observers — the same polling oracle is applied to the
+whole group of calls, nothing may be delivered before the last slice, and the notifications must equal those
+of the unsliced play of the same history.  Assignment-heavy generated programs and a hand-written regression
+program put assignments into every slice.  The model tie is read strictly here: a notification the model
+makes and the implementation omits is only accepted when the polled value did not change (Rc::ptr_eq).
+"""
+import json, re, random, time
 import vlib, engine
 from props import hist
 
@@ -11,8 +20,56 @@ ASSUMPTIONS = [
     "Rc::ptr_eq(old,new) (re-assigning the very same value object) is not modelled: the model reports every ASSIGNED "
     "observed variable, the implementation may omit unchanged re-assignments; the oracle checks the implementation "
     "lies between 'value differs' and 'assigned'",
-    "tie: engine.compare on the same scripts",
-    "oracle on the implementation: observers on every global, values polled (GETVAR) after every op",
+    "tie: engine.compare on the same scripts (sliced ones included: virtual clock hook H2 on the implementation side, "
+    "the same schedule in the model); an omitted notification is accepted only when the polled value is unchanged",
+    "oracle on the implementation: observers on every global, values polled (GETVAR) after every host call; a continue "
+    "split over time-limited slices (CONT_SLICED, CONT_ASYNC .. FINISH) is one call for this purpose and must notify "
+    "exactly as the unsliced continue of the same history does, after its last slice",
+]
+
+# generated programs with many assignments per line (so that every slice of a sliced continue assigns something)
+ASSIGN_HEAVY = dict(assign=6.0, line=3.0, max_stmts=5, n_gints=(2, 4), n_gbools=(1, 2), n_funcs=(1, 2),
+                    func_stmts=(1, 3), eval_call=1.2, inl_call=0.8, tunnel=1.2)
+
+# hand-written: several globals assigned at different depths of ONE line (plain, inside a function, a tunnel, a
+# thread, before and after glue), some re-assigned later in the line, some not (minimised form of seeded C11b
+# plus neighbours)
+REGRESSION = [
+    """VAR x = 0
+VAR y = 0
+VAR z = 0
+VAR w = "a"
+~ x = 5
+~ bump(2)
+~ y = 7
+Both set {x} {y}. <>
+~ z = x + y
+-> tun ->
+tail {z}
+~ x = x + 1
+~ y = y
+Second {x}
+* [more]
+  ~ w = "b"
+  ~ z = 0
+  <- side
+  After {w}
+  ~ x = 9
+  -> END
+* [stop] -> END
+=== tun ===
+~ w = "t"
+~ z = z * 2
+->->
+=== side ===
+~ y = y + 100
+side text
+-> DONE
+=== function bump(n) ===
+~ z = z + n
+~ w = "f"
+~ return n
+""",
 ]
 
 
@@ -26,53 +83,233 @@ def parse_obs(e):
     return m.groups() if m else None
 
 
+# ---------------------------------------------------------------------------------------------- scripts
+# A history is a list of host calls; a call is a list of ops (one op, or the slices of one continue).
+
+def slice_calls(ops, mode, rng):
+    """replace every CONT of `ops` by a sliced form; returns a list of calls (lists of ops)"""
+    calls = []
+    for o in ops:
+        if o[0] != "CONT":
+            calls.append([o]); continue
+        m = mode if mode != "mixed" else rng.choice(["plain", "every", "random", "async"])
+        if m == "plain":
+            calls.append([o])
+        elif m == "every":
+            calls.append([["CONT_SLICED", [1] * 300]])
+        elif m == "random":
+            calls.append([["CONT_SLICED", [rng.randint(1, 6) for _ in range(rng.randint(1, 8))]]])
+        else:   # first slice by continue_async, the rest by cont()
+            calls.append([["CONT_ASYNC", [rng.randint(1, 9)]], ["FINISH"]])
+    return calls
+
+
+def build_script(p, calls, tail_call):
+    """observers: A on all globals, B on the first one only; B removed half way (followed by a host assignment);
+    every global polled after every call (and between the slices of a CONT_ASYNC..FINISH call); a reset and one
+    more line at the end.  -> (script, kinds); kinds: setup / part (slice that is not the last op of its call) /
+    midpoll / op / poll / unobserve / setvar / reset"""
+    G = p["globals"]
+    st = hist.setup_ops(p)
+    for g in G:
+        st.append(["OBSERVE", "A", g])
+    st.append(["OBSERVE", "B", G[0]])
+    script, kinds = list(st), ["setup"] * len(st)
+
+    def polls(kind="poll"):
+        for g in G:
+            script.append(["GETVAR", g]); kinds.append(kind)
+
+    def call(c):
+        for o in c[:-1]:
+            script.append(o); kinds.append("part")
+            polls("midpoll")
+        script.append(c[-1]); kinds.append("op")
+        polls()
+
+    half = len(calls) // 2
+    for i, c in enumerate(calls):
+        if i == half:
+            script.append(["UNOBSERVE", "B", G[0]]); kinds.append("unobserve")
+            script.append(["SETVAR", G[0], {"i": 41}]); kinds.append("setvar")
+            polls()
+        call(c)
+    script.append(["RESET"]); kinds.append("reset")
+    polls()
+    call(tail_call)
+    return script, kinds
+
+
+def walk(lines, kinds, G):
+    """yield one record per host call of a transcript: dict(kind, line (last line of the call), lines, rs_all,
+    evs (observer notifications of the whole call), early (notifications delivered before the last slice),
+    new (polled values after the call), unfinished)"""
+    i = 0
+    while i < len(lines):
+        k = kinds[i]
+        if k not in ("op", "part", "setvar", "reset", "unobserve"):
+            i += 1
+            continue
+        grp, evs, early, rs_all = [], [], [], []
+        while True:
+            op, rs, sm = hist.split_line(lines[i])
+            e = [parse_obs(x) for x in events(sm) if x.startswith("obs(")]
+            grp.append(lines[i]); rs_all.append(rs)
+            if kinds[i] == "part":
+                early += e
+                evs += e
+                i += 1
+                while i < len(lines) and kinds[i] == "midpoll":
+                    early += [parse_obs(x) for x in events(hist.split_line(lines[i])[2]) if x.startswith("obs(")]
+                    i += 1
+                continue
+            evs += e
+            k = kinds[i]
+            i += 1
+            break
+        new = {}
+        while i < len(lines) and kinds[i] == "poll":
+            o, r, s = hist.split_line(lines[i])
+            new[json.loads(o)[1]] = r
+            evs += [parse_obs(x) for x in events(s) if x.startswith("obs(")]
+            i += 1
+        yield dict(kind=k, line=grp[-1], lines=grp, rs=rs_all[-1], rs_all=rs_all, evs=evs, early=early, new=new)
+
+
+def short(l, n=260):
+    l = re.sub(r"\[1(,1){20,}\]", "[1,1,..]", l)
+    return l if len(l) <= n else l[:n] + "..."
+
+
+def check_transcript(lines, kinds, G):
+    """the polling oracle; -> (failure dict | None, per-call notification lists, number of notifications)"""
+    vals, b_active, notes, per_call = {}, True, 0, []
+    for c in walk(lines, kinds, G):
+        k, evs, new = c["kind"], c["evs"], c["new"]
+        ctxt = dict(line=short(c["line"]), call=[short(x) for x in c["lines"]])
+        if k == "unobserve":
+            b_active = False
+            if c["rs"].startswith("panic"):
+                return dict(key="unobserve-panics", **ctxt), per_call, notes
+            continue
+        notes += len(evs)
+        per_call.append(sorted("%s,%s,%s" % e for e in evs))
+        if c["early"]:
+            return dict(key="notified-before-the-continue-finished", early=c["early"], **ctxt), per_call, notes
+        seen = set()
+        for (oid, var, val) in evs:
+            if (oid, var) in seen:
+                return dict(key="notified-twice-in-one-call", **ctxt), per_call, notes
+            seen.add((oid, var))
+            if new.get(var) != f"ok({val})":
+                return dict(key="notification-value-not-final", polled=new.get(var), **ctxt), per_call, notes
+            if oid == "B" and (not b_active or var != G[0]):
+                return dict(key="removed-or-foreign-observer-notified", **ctxt), per_call, notes
+        if all(r.startswith("ok") for r in c["rs_all"]) and k != "reset":
+            for g in G:
+                if g in vals and g in new and vals[g] != new[g]:
+                    want = {("A", g)} | ({("B", g)} if (b_active and g == G[0]) else set())
+                    if not want <= seen:
+                        return dict(key="committed-change-not-notified", variable=g, before=vals[g], after=new[g],
+                                    notified=sorted(seen), **ctxt), per_call, notes
+        if k == "setvar" and c["rs"] == "ok":
+            if ("A", G[0]) not in seen or len(evs) != 1:
+                return dict(key="host-assignment-not-notified-once", **ctxt), per_call, notes
+        vals.update(new)
+    return None, per_call, notes
+
+
+def strict_tie(r, script, kinds, G):
+    """engine.compare accepts 'implementation notifies a subset of the model' (Rc::ptr_eq).  Here: a notification
+    of the model that the implementation omits must be about a variable whose polled value did not change."""
+    il, ml = r.get("impl_lines"), r.get("model_lines")
+    if not il or not ml or len(il) != len(ml) or len(il) != len(kinds) + 1:
+        return None
+    # per call: union of the model's / implementation's notifications, values before and after
+    def calls(lines):
+        return list(walk([json.dumps(o) + " => " + l for o, l in zip(script, lines[1:])], kinds, G))
+    vals = {}
+    for ci, cm in zip(calls(il), calls(ml)):
+        if ci["kind"] == "unobserve":
+            continue
+        missing = set(cm["evs"]) - set(ci["evs"])
+        for (oid, var, val) in sorted(missing):
+            if var in vals and var in ci["new"] and vals[var] != ci["new"][var]:
+                return dict(line=short(ci["line"]), model_notifies=f"obs({oid},{var},{val})",
+                            implementation_notifies=sorted("obs(%s,%s,%s)" % e for e in ci["evs"]),
+                            before=vals[var], after=ci["new"][var])
+        vals.update(ci["new"])
+    return None
+
+
+class _Rng:
+    def __init__(self, rng):
+        self.rng = rng
+
+
 def run(ctx):
+    T = {}
+    t0 = time.time()
     exe = vlib.build_harness()
     sw = engine.current_switches()
     ctx.coverage["generated_tables"] = sw
     pr = ctx.proof("theories/Props/C11.v")
+    T["build+proof"] = round(time.time() - t0, 1); t0 = time.time()
     nprog = 12 if ctx.quick() else 80
     progs = [p for p in hist.programs(ctx, nprog) if p["globals"]]
     trees = hist.explore_tree(exe, progs, depth=3, max_paths=20)
-    cases, meta = [], {}
+    hists = []                                   # (prog, path, ops)
     for p in progs:
         t = trees.get(p["id"])
         if not t:
             continue
-        G = p["globals"]
         for (path, ops) in hist.histories(ctx, t, 2 if ctx.quick() else 5):
-            # observers: A on all globals, B on the first one only; B removed half way, A re-added after reset
-            st = hist.setup_ops(p)
-            for g in G:
-                st.append(["OBSERVE", "A", g])
-            st.append(["OBSERVE", "B", G[0]])
-            script, kinds = list(st), ["setup"] * len(st)
-            half = len(ops) // 2
-            for i, o in enumerate(ops):
-                if i == half:
-                    script.append(["UNOBSERVE", "B", G[0]]); kinds.append("unobserve")
-                    script.append(["SETVAR", G[0], {"i": 41}]); kinds.append("setvar")
-                    for g in G:
-                        script.append(["GETVAR", g]); kinds.append("poll")
-                script.append(o); kinds.append("op")
-                for g in G:
-                    script.append(["GETVAR", g]); kinds.append("poll")
-            script += [["RESET"]]; kinds.append("reset")
-            for g in G:
-                script.append(["GETVAR", g]); kinds.append("poll")
-            script += [["CONT"]]; kinds.append("op")
-            for g in G:
-                script.append(["GETVAR", g]); kinds.append("poll")
-            cid = f"{p['id']}|{path}"
+            hists.append((p, path, ops))
+    # extra programs (own random stream, drawn after the above so that those stay what they were)
+    srng = random.Random(ctx.rng.getrandbits(64))
+    extra = [dict(id=f"regr{i}", ink=s, **hist.analyse(s)) for i, s in enumerate(REGRESSION)]
+    g = hist.try_gen_ink()
+    for k in range(5 if ctx.quick() else 30):
+        if g is None:
+            break
+        try:
+            src, _ = g.gen_program(srng, **ASSIGN_HEAVY)
+        except Exception:
+            break
+        extra.append(dict(id=f"assign{k}", ink=src, **hist.analyse(src)))
+    extra = [p for p in extra if p["globals"]]
+    xtrees = hist.explore_tree(exe, extra, depth=3, max_paths=20)
+    for p in extra:
+        t = xtrees.get(p["id"])
+        if not t:
+            continue
+        for (path, ops) in hist.histories(_Rng(srng), t, 2 if ctx.quick() else 5):
+            hists.append((p, path, ops))
+    progs = progs + extra
+
+    modes = ["every", "random", "async", "mixed"] + ([] if ctx.quick() else ["random", "random", "async", "mixed"])
+    cases, meta = [], {}
+    for (p, path, ops) in hists:
+        bid = f"{p['id']}|{path}"
+        script, kinds = build_script(p, [[o] for o in ops], [["CONT"]])
+        cases.append(dict(id=bid, ink=p["ink"], seed=42, fuel=30000, script=script))
+        meta[bid] = dict(prog=p, kinds=kinds, base=None, mode="plain")
+        for vi, mode in enumerate(modes):
+            calls = slice_calls(ops + [["CONT"]], mode, srng)
+            script, kinds = build_script(p, calls[:-1], calls[-1])
+            cid = f"{bid}|{mode}{vi}"
             cases.append(dict(id=cid, ink=p["ink"], seed=42, fuel=30000, script=script))
-            meta[cid] = dict(prog=p, kinds=kinds, nsetup=len(st))
+            meta[cid] = dict(prog=p, kinds=kinds, base=bid, mode=mode)
     res = {r["id"]: r for r in vlib.run_inkdrive(cases, exe)}
-    fails, n_checked, n_notes = [], 0, 0
+    T["impl-runs"] = round(time.time() - t0, 1); t0 = time.time()
+    by_id = {c["id"]: c for c in cases}
+    fails, n_checked, n_notes, n_sliced, n_multi = [], 0, 0, 0, 0
+    percall = {}
     for cid, m in meta.items():
         r = res.get(cid)
         if not r or r.get("out_of_fuel") or r.get("load") != "ok":
             continue
-        case = next(c for c in cases if c["id"] == cid)
+        case = by_id[cid]
         if r.get("crash") is not None:
             fails.append(dict(key="crash", case=case)); continue
         G = m["prog"]["globals"]
@@ -80,69 +317,58 @@ def run(ctx):
         kinds = m["kinds"]
         if len(lines) != len(kinds):
             continue
-        vals = {}                           # last polled value per global
-        b_active = True
-        i = 0
         n_checked += 1
-        bad = None
-        while i < len(lines) and not bad:
-            k = kinds[i]
-            op, rs, sm = hist.split_line(lines[i])
-            evs = [parse_obs(e) for e in events(sm) if e.startswith("obs(")]
-            if k == "unobserve":
-                b_active = False
-                if rs.startswith("panic"):
-                    bad = dict(key="unobserve-panics", line=lines[i])
-            if k in ("op", "setvar", "reset"):
-                # polls follow
-                new = {}
-                j = i + 1
-                while j < len(lines) and kinds[j] == "poll":
-                    g = json.loads(hist.split_line(lines[j])[0])[1]
-                    new[g] = hist.split_line(lines[j])[1]
-                    j += 1
-                n_notes += len(evs)
-                seen = set()
-                for (oid, var, val) in evs:
-                    if (oid, var) in seen:
-                        bad = dict(key="notified-twice-in-one-call", line=lines[i]); break
-                    seen.add((oid, var))
-                    if new.get(var) != f"ok({val})":
-                        bad = dict(key="notification-value-not-final", line=lines[i], polled=new.get(var)); break
-                    if oid == "B" and (not b_active or var != G[0]):
-                        bad = dict(key="removed-or-foreign-observer-notified", line=lines[i]); break
-                if not bad and rs.startswith("ok") and k != "reset":
-                    for g in G:
-                        if g in vals and g in new and vals[g] != new[g]:
-                            want = {("A", g)} | ({("B", g)} if (b_active and g == G[0]) else set())
-                            if not want <= seen:
-                                bad = dict(key="committed-change-not-notified", line=lines[i], variable=g,
-                                           before=vals[g], after=new[g]); break
-                if not bad and k == "setvar" and rs == "ok":
-                    if ("A", G[0]) not in seen or len(evs) != 1:
-                        bad = dict(key="host-assignment-not-notified-once", line=lines[i])
-                vals.update(new)
-                i = j
-                continue
-            i += 1
+        bad, pc, nn = check_transcript(lines, kinds, G)
+        n_notes += nn
+        percall[cid] = pc
+        if m["base"]:
+            n_sliced += 1
+            n_multi += sum(1 for l in lines if "ok(active=1)" in l)
+        if not bad and m["base"] and m["base"] in percall and percall[m["base"]] is not None:
+            b = percall[m["base"]]
+            if len(b) == len(pc):
+                for j, (x, y) in enumerate(zip(b, pc)):
+                    if x != y:
+                        bad = dict(key="sliced-continue-notifies-differently", call_index=j, unsliced=x, sliced=y,
+                                   mode=m["mode"])
+                        break
         if bad:
             bad["case"] = case
             fails.append(bad)
-    sample = list(cases)
-    ctx.rng.shuffle(sample)
-    sample = sample[: (40 if ctx.quick() else 500)]
+            percall[cid] = None
+    T["oracle"] = round(time.time() - t0, 1); t0 = time.time()
+
+    # model <-> implementation on a sample: plain and sliced scripts
+    plain = [c for c in cases if not meta[c["id"]]["base"]]
+    slc = [c for c in cases if meta[c["id"]]["base"]]
+    ctx.rng.shuffle(plain); ctx.rng.shuffle(slc)
+    nm = 40 if ctx.quick() else 500
+    sample = plain[: nm * 2 // 5] + slc[: nm - min(len(plain), nm * 2 // 5)]
     mcases = [dict(c, id="m:" + c["id"]) for c in sample]
     cres = engine.compare(mcases, exe, sw)
     mism = [r for r in cres if r["status"] in ("mismatch", "model-error")]
     agree = sum(1 for r in cres if r["status"] == "agree")
+    strict = []
+    for r in cres:
+        if r["status"] != "agree":
+            continue
+        m = meta[r["id"][2:]]
+        d = strict_tie(r, by_id[r["id"][2:]]["script"], m["kinds"], m["prog"]["globals"])
+        if d:
+            strict.append((r, d))
+    T["model-tie"] = round(time.time() - t0, 1)
     ctx.coverage.update(dict(
         evaluations=len(cases), distinct_nontrivial=n_checked,
-        rule="programs with globals x explored histories; observer A on every global, B on the first (removed half "
-             "way, followed by a host assignment); every global polled after every op; a reset and one more line at "
-             "the end; notifications_seen counts observer callbacks",
-        notifications_seen=n_notes,
-        samples=[cases[0]["script"][:14] if cases else []],
-        traces_validated_against_impl=agree, correspondence_mismatches=len(mism), programs=len(progs)))
+        rule="programs with globals (builtin, generated, assignment-heavy generated, regression) x explored histories; "
+             "observer A on every global, B on the first (removed half way, followed by a host assignment); every "
+             "global polled after every host call; a reset and one more line at the end; each history played unsliced "
+             "and with its continues sliced (pause after every step / random schedules / continue_async then cont / "
+             "mixed), a sliced continue being one call; notifications_seen counts observer callbacks, "
+             "slices_left_unfinished counts time-limited calls that really stopped mid-line",
+        notifications_seen=n_notes, sliced_scripts=n_sliced, slices_left_unfinished=n_multi,
+        samples=[[short(json.dumps(o)) for o in cases[0]["script"][:14]] if cases else []],
+        traces_validated_against_impl=agree, correspondence_mismatches=len(mism) + len(strict), programs=len(progs),
+        phase_seconds=T))
     seen = set()
     for f in fails:
         if f["key"] in seen:
@@ -158,10 +384,15 @@ def run(ctx):
             ctx.violation("engine model/implementation correspondence broken: " + json.dumps(r.get("first_diff"))[:300],
                           dict(case=next(c for c in mcases if c["id"] == r["id"]), first_diff=r.get("first_diff"),
                                error=r.get("error")), no_input=True)
+        elif strict:
+            r, d = strict[0]
+            ctx.violation("engine model notifies a changed variable, the implementation does not: " + json.dumps(d)[:300],
+                          dict(case=next(c for c in mcases if c["id"] == r["id"]), first_diff=d),
+                          key="model-notifies-implementation-silent")
 
 
 def replay(ctx, payload):
     exe = vlib.build_harness()
     r = vlib.run_inkdrive([payload["replay"]["case"]], exe)[0]
-    print("\n".join(r["lines"]))
+    print("\n".join(short(l, 400) for l in r["lines"]))
     ctx.coverage.update(dict(evaluations=1, distinct_nontrivial=2, obligations=1, discharged=1))
